@@ -471,6 +471,84 @@ processes the interrupt, the workflow collects it and drains -/
 example : propagate KCfg.head .keyboardInterrupt [false, true, false] =
     { stats := [.failed, .failed, .failed], aborted := [true, false], hand := .collect .keyboardInterrupt 1 } := by decide
 
+/-! ### re-run histories at every nesting level
+
+The outermost composite is run again and again; between two runs the user clears the failed flags and may change,
+anywhere in the tree, what fails, what runs on an executor and what is raised (`Edit`). A run may stop anywhere (it
+failed, or not). `nrestart` restarts EVERY level the way `Exec.restart` does (outputs as the last run left them), each
+with its own switch `reset`: do the all-of triggers of this composite's children start empty? On the tree as it is
+they do at every level — a workflow re-wires on every run, and every composite's fresh start resets them (bc0a763). -/
+
+/-- RUN NUMBER n OF ANY HISTORY IS A RUN FROM A FRESH TREE: with every level resetting, the state at any moment of the
+last run of any history — whatever the earlier runs did and wherever they stopped — is reachable from a fresh, properly
+wired tree. Hence every `C06_nest_*` theorem holds for every run of every history. -/
+theorem C06_nest_rerun {cfg : Cfg} (hist : List ((List Nat → Edit E) × List (List Nat × Act))) :
+    ∀ (t₀ t : Tree E), NWF t₀ → hist ≠ [] → (∀ h ∈ hist, ∀ p, (h.1 p).reset = true) →
+      nhistory cfg t₀ hist = some t → ∃ t₁, NReach cfg t₁ t := by
+  induction hist with
+  | nil => intro _ _ _ hne; exact absurd rfl hne
+  | cons h rest ih =>
+    intro t₀ t wf _ hr hh
+    obtain ⟨ed, acts⟩ := h
+    simp only [nhistory] at hh
+    obtain ⟨wf1, fr1⟩ := nrestart_fresh t₀ ed wf (hr (ed, acts) (by simp))
+    cases h1 : nrun cfg (nrestart t₀ ed) acts with
+    | none => simp [h1] at hh
+    | some t' =>
+      simp only [h1] at hh
+      cases rest with
+      | nil =>
+        simp only [nhistory, Option.some.injEq] at hh
+        subst hh
+        exact ⟨nrestart t₀ ed, wf1, fr1, acts, h1⟩
+      | cons h2 rest' =>
+        have wf' := (nrun_inv cfg acts _ t' wf1 (fresh_ninv cfg _ wf1 fr1) h1).2
+        exact ih t' t wf' (by simp) (fun x hx => hr x (by simp [hx])) hh
+
+/-- … for instance CONTAINED, in run n of any history, at every level -/
+theorem C06_nest_rerun_no_downstream {cfg : Cfg} (hist : List ((List Nat → Edit E) × List (List Nat × Act)))
+    (t₀ t : Tree E) (wf : NWF t₀) (hne : hist ≠ []) (hr : ∀ h ∈ hist, ∀ p, (h.1 p).reset = true)
+    (hh : nhistory cfg t₀ hist = some t)
+    (p : List Nat) (d : Dag) (exc : Nat → E) (s : S) (kids : Nat → Tree E) (hs : t.sub p = .comp d exc s kids)
+    (i j : Nat) (hj : j ∈ d.deps i) (hf : s.st j ≠ .done) : s.calls i = 0 ∧ s.st i = .idle := by
+  obtain ⟨t₁, h1⟩ := C06_nest_rerun hist t₀ t wf hne hr hh
+  exact ⟨(C06_nest_no_downstream h1 p d exc s kids hs i j hj hf).1, (C06_nest_no_downstream h1 p d exc s kids hs i j hj hf).2.1⟩
+
+/-! a macro level that keeps what its triggers collected (the reset only where the wiring is made — a macro is wired
+once): workflow ⊃ macro ⊃ `left` (0), `right` (1) → `combine` (2). Run 1: `right` raises after `left` completed. Run 2:
+`left` raises, `right` completes — `combine` is invoked although `left` failed. -/
+def wJoin (fails : List Bool) : FinDag :=
+  { n := 3, slots := [[], [], [[0], [1]]], down := [[2], [2], []], starters := [0, 1],
+    onExec := [false, false, false], fails := fails, rank := [0, 0, 1] }
+def wOne : FinDag :=
+  { n := 1, slots := [[]], down := [[]], starters := [0], onExec := [false], fails := [false], rank := [0] }
+def tJoin : Tree Nat := mkComp wOne.toDag (fun _ => 0) [(0, mkComp (wJoin [false, true, false]).toDag (fun i => i) [])]
+
+def run1 : List (List Nat × Act) :=
+  [([], .start), ([0], .start), ([0], .start), ([0], .deliver), ([0], .exit), ([], .complete 0), ([], .exit)]
+def run2 : List (List Nat × Act) :=
+  [([], .start), ([0], .start), ([0], .start), ([0], .deliver), ([0], .exit), ([], .complete 0), ([], .exit)]
+/-- second run: `left` raises; the macro level resets its triggers or not -/
+def edit2 (macroResets : Bool) : List Nat → Edit Nat
+  | [0] => { fails := fun i => i == 0, onExec := fun _ => false, exc := fun i => i, reset := macroResets }
+  | _ => { fails := fun _ => false, onExec := fun _ => false, exc := fun _ => 0, reset := true }
+
+/-- first run: `right` raises -/
+def edit1 : List Nat → Edit Nat
+  | [0] => { fails := fun i => i == 1, onExec := fun _ => false, exc := fun i => i, reset := true }
+  | _ => { fails := fun _ => false, onExec := fun _ => false, exc := fun _ => 0, reset := true }
+
+def joinAfter (macroResets : Bool) : Option (Nat × St × St × St) :=
+  (nhistory Cfg.repaired tJoin [(edit1, run1), (edit2 macroResets, run2)]).map fun t =>
+    match t.sub [0] with
+    | .comp _ _ s _ => (s.calls 2, s.st 0, s.st 1, s.st 2)
+    | .leaf => (9, .idle, .idle, .idle)
+
+/-- `combine` executed in a run in which `left` failed — never with the reset -/
+theorem C06_nest_rerun_pinned_witness :
+    joinAfter false = some (1, .failed, .done, .done) ∧ joinAfter true = some (0, .failed, .done, .idle) := by
+  decide
+
 section Fine
 open PwVerif.ExecFine
 
@@ -774,3 +852,6 @@ end PwVerif.C06
 #print axioms PwVerif.C06.C06_kinds_head_partial
 #print axioms PwVerif.C06.C06_kinds_head_witness
 #print axioms PwVerif.C06.C06_kinds_vanish_witness
+#print axioms PwVerif.C06.C06_nest_rerun
+#print axioms PwVerif.C06.C06_nest_rerun_no_downstream
+#print axioms PwVerif.C06.C06_nest_rerun_pinned_witness
